@@ -4,7 +4,8 @@
     check exit 1 and report the named rule;
   * every benign edit in selftest/benign.py (behaviour-preserving) must leave the named checks at exit 0.
   * every seeded change written by a sub-agent (seeded/<id>/patch.diff) must be reported by the check of its own property
-    (or stay silent when its meta.json says it is benign on the repaired tree).
+    (or stay silent when its meta.json says it is benign on the repaired tree, or end as analysis-broken, exit 2, when its
+    meta.json says the change swaps an anchored construct for one the analysis does not decide).
 usage: selftest.py [--only substr] [--jobs N] [--kind mutants|benign|all]
 Not a MANIFEST command; scratch copies are removed after each case."""
 import argparse, os, shutil, subprocess, sys, tempfile, importlib.util
@@ -29,9 +30,9 @@ def seeded_cases():
         if not os.path.exists(os.path.join(d, "patch.diff")):
             continue
         meta = json.load(open(os.path.join(d, "meta.json")))
-        silent = meta.get("expect_on_current_tree") == "silent"
+        exp = meta.get("expect_on_current_tree")
         out.append((dict(name="seed-" + os.path.basename(d), ids=[meta["property"]], rule=None, subs=[], patch=os.path.join(d, "patch.diff")),
-                    "benign" if silent else "mutants"))
+                    "benign" if exp == "silent" else "undecided" if exp == "analysis-broken" else "mutants"))
     return out
 
 def apply(tmp, case):
@@ -67,6 +68,11 @@ def run_case(case, kind):
                     ok = False
                     msgs.append("%s rc=%d expected VIOLATION by %s; got: %s" % (pid, r.returncode, case.get("rule"),
                                 " | ".join(l.strip()[:160] for l in r.stdout.splitlines()[:4]) + r.stderr[-300:]))
+            elif kind == "undecided":
+                # the change replaces a construct the rule is anchored in by something the analysis does not decide: exit 2, never a pass
+                if r.returncode != 2:
+                    ok = False
+                    msgs.append("%s rc=%d expected ANALYSIS-BROKEN (exit 2)" % (pid, r.returncode))
             else:
                 if r.returncode != 0:
                     ok = False
